@@ -13,3 +13,25 @@ fn name_token<const KF: usize>() {
     std::mem::forget(r);
     kani::cover!(true, "end reached");
 }
+
+// The string scanners, called directly (next_token dispatches to them on '(' and '<'): arbitrary
+// bytes incl. truncated escapes, unbalanced parentheses, odd hex digits.
+// @ob id=string_scanners tier=quick unwind=8 stubs=fmt,vec timeout=1500 mem=20 bound="read_literal_string on '(' + up to 4 arbitrary bytes and read_hex_string on '<' + up to 4 arbitrary bytes: value or error, position never past the input, output no longer than the input"
+fn string_scanners<const KF: usize>() {
+    let b: [u8; 4] = kani::any();
+    let hex: bool = kani::any();
+    let buf = [if hex { b'<' } else { b'(' }, b[0], b[1], b[2], b[3]];
+    let n: usize = kani::any();
+    kani::assume(n >= 1 && n <= 5);
+    let mut t = ContentTokenizer::new(&buf[..n]);
+    let r = if hex { t.read_hex_string() } else { t.read_literal_string() };
+    assert!(t.position <= n, "tokenizer position ran past the end of the input");
+    match &r {
+        Ok(Some(Token::String(v))) | Ok(Some(Token::HexString(v))) => assert!(v.len() <= n, "scanned string longer than its input"),
+        _ => {}
+    }
+    kani::cover!(hex && r.is_ok(), "hex string scanned");
+    kani::cover!(!hex && n == 2 && b[0] == b'\\', "backslash at the very end reached");
+    std::mem::forget(r);
+    kani::cover!(true, "end reached");
+}
